@@ -3501,6 +3501,9 @@ class RemoteRepository(_mod_repository.Repository, _RpcHelper, lock._RelockDebug
 
     def iter_files_bytes(self, desired_files):
         """See Repository.iter_file_bytes."""
+        # The request below consumes desired_files; the fallback for servers
+        # without the verb needs to walk it again.
+        desired_files = list(desired_files)
         try:
             absent = {}
             for identifier, bytes_iterator in self._iter_files_bytes_rpc(
